@@ -15,7 +15,9 @@ var methodNames = []string{"descriptor", "type", "new", "interface", "range", "h
 	"new_field", "which_oneof", "get_unknown", "set_unknown", "is_valid", "proto_methods"}
 var plainNames = []string{"a", "b", "c", "id", "name", "value", "count", "data", "items", "owner", "flag", "amount",
 	"x", "l", "n", "i", "k", "v", "e", "s", "err", "options", "input", "size", "reset", "string", "go", "func", "map",
-	"foo_bar", "foo_baz", "q1", "q2", "z9", "alpha", "beta", "gamma", "delta"}
+	"foo_bar", "foo_baz", "q1", "q2", "z9", "alpha", "beta", "gamma", "delta",
+	// odd but valid identifiers
+	"_x", "x_", "a__b", "_", "A", "aB", "URL", "a_1", "x_y_z", "X_y", "fooBar", "foo_Bar", "FOO", "Name", "ID", "m_0", "n1_x", "En0", "M0"}
 
 func goCamel(s string) string { return strings.ToLower(camel(s)) }
 
@@ -125,7 +127,12 @@ func drawUnit(t *rapid.T, name string, avoid map[string]bool, prev *Unit) *Unit 
 			parent := msgs[rapid.IntRange(0, len(msgs)-1).Draw(t, "parent")]
 			mm = parent.Nested(fmt.Sprintf("N%d", m))
 		} else {
-			mm = f.Msg(fmt.Sprintf("%sM%d", tp, m))
+			mn := fmt.Sprintf("%sM%d", tp, m)
+			if rapid.IntRange(0, 3).Draw(t, "lowername") == 0 {
+				// lower-case / underscored type names are valid proto
+				mn = fmt.Sprintf("%s%s%d", strings.ToLower(tp), rapid.SampledFrom([]string{"item", "event", "record", "value_", "node_x", "rnd", "verif"}).Draw(t, "lname"), m)
+			}
+			mm = f.Msg(mn)
 		}
 		msgs = append(msgs, mm)
 		refs = append(refs, M(mm.Full()))
@@ -205,24 +212,30 @@ func drawUnit(t *rapid.T, name string, avoid map[string]bool, prev *Unit) *Unit 
 				return n
 			}
 		}
+		// a custom json_name now and then (unique by construction)
+		jn := func(fd *descriptorpb.FieldDescriptorProto) {
+			if rapid.IntRange(0, 7).Draw(t, "jsonname") == 0 {
+				fd.JsonName = proto.String(fmt.Sprintf("jn %d-%s", fd.GetNumber(), rapid.SampledFrom([]string{"x", "Y", "@z", "with space", "ünï"}).Draw(t, "jn")))
+			}
+		}
 		nField := rapid.IntRange(0, 10).Draw(t, "nField")
 		for i := 0; i < nField; i++ {
 			n := pickName(plainNames)
 			num := pickNum()
 			switch rapid.IntRange(0, 9).Draw(t, "shape") {
 			case 0, 1, 2, 3:
-				mm.F(n, num, drawType(true))
+				jn(mm.F(n, num, drawType(true)))
 			case 4, 5:
-				mm.R(n, num, drawType(true))
+				jn(mm.R(n, num, drawType(true)))
 			case 6:
 				ty := drawType(false)
 				if Packable(ty.Kind) {
-					mm.U(n, num, ty)
+					jn(mm.U(n, num, ty))
 				} else {
-					mm.R(n, num, ty)
+					jn(mm.R(n, num, ty))
 				}
 			default:
-				mm.Map(n, num, rapid.SampledFrom(KeyKinds).Draw(t, "key"), drawType(true))
+				jn(mm.Map(n, num, rapid.SampledFrom(KeyKinds).Draw(t, "key"), drawType(true)))
 			}
 		}
 		nOneof := rapid.IntRange(0, 2).Draw(t, "nOneof")
@@ -248,7 +261,7 @@ func drawUnit(t *rapid.T, name string, avoid map[string]bool, prev *Unit) *Unit 
 				if avoid["sint_oneof"] && (ty.Kind == Sint32 || ty.Kind == Sint64) {
 					ty = S(Int64)
 				}
-				mm.O(oi, pickName(plainNames), pickNum(), ty)
+				jn(mm.O(oi, pickName(plainNames), pickNum(), ty))
 			}
 		}
 	}
